@@ -4,7 +4,8 @@
 From SF Require Import Model.Bytes Model.F64 Model.ShapeType Model.Shapes Model.Res Model.Encode Model.Writer
   Model.Prog Model.Decode Model.Reader Spec.Esri Spec.Denote Spec.Layout.
 From SF Require Import Proofs.WriterCore Proofs.WriterInv Proofs.WriterFaults Proofs.EncodeRef Proofs.LayoutConf Proofs.RoundTrip
-  Proofs.ReaderSeq Proofs.CrashRead Proofs.CrashStates Proofs.CrashTheorem Proofs.TornLength.
+  Proofs.ReaderSeq Proofs.CrashRead Proofs.CrashStates Proofs.CrashTheorem Proofs.TornLength Proofs.HeaderMix Proofs.CrashCommit
+  Proofs.CommitTheorem.
 Open Scope Z_scope.
 
 (** The crash model is the property's own: what was persisted is the result
@@ -70,6 +71,54 @@ Theorem C11_torn_length_monotone : forall (a b : Z) (j : nat),
 Proof. exact torn_be32_monotone. Qed.
 Print Assumptions C11_torn_length_monotone.
 
+(** A header slot torn at any byte between two headers of the same file type
+    (the older declaring len1 words, the newer len2 >= len1) is itself a
+    well-formed header: same code, version and type, a length between len1 and
+    2^31, some 64-bit patterns as box. *)
+Theorem C11_torn_header : forall (t : shape_type) (box2 box1 : list f64) (len2 len1 : Z) (i : nat),
+  length box1 = 8%nat -> length box2 = 8%nat -> 0 <= len1 <= len2 -> len2 < two31 ->
+  exists box3 len3, mixb i (ref_header t box2 len2) (ref_header t box1 len1) = ref_header t box3 len3 /\
+    length box3 = 8%nat /\ Forall f64_ok box3 /\ len1 <= len3 < two31.
+Proof. exact torn_header. Qed.
+Print Assumptions C11_torn_header.
+
+(** Writer side of the last clause: once a finalize has completed with the
+    shapes ss0 (not empty) — [tc] is the byte-exploded .shp trace up to and
+    including it — every later crash state is
+    (header of a later finalize torn over the header of the one before it)
+    ++ (byte-prefix of the record stream holding all records of the later of
+    the two), both headers being final headers of lists that extend ss0. *)
+Theorem C11_committed_states : forall (hs : bool) (cs1 cs2 : list wcall) (e : wending),
+  Forall call_ok cs1 -> Forall call_ok cs2 -> accepted_acc [] cs1 <> [] ->
+  let tc := explode (trace (w_shp (shp_after hs (cs1 ++ [CFinalize])))) in
+  forall p, is_prefix p (explode (trace (w_shp (snd (run_history hs world0 (cs1 ++ CFinalize :: cs2) e))))) ->
+  is_prefix tc p ->
+  committed_form (accepted_acc [] cs1) (accepted_acc [] (cs1 ++ CFinalize :: cs2)) (fst (bp_ops p ([], 0%nat))).
+Proof. exact committed_states. Qed.
+Print Assumptions C11_committed_states.
+
+(** Everything written before a finalize that completed on the .shp remains
+    readable from it: on EVERY crash state after that finalize (any byte cut
+    of any later operation, later finalizes' torn headers included) a reader
+    without index opens the file and yields at least the committed shapes —
+    still a prefix of the shapes written, then at most one UnexpectedEof. *)
+Theorem C11_committed_readable : forall (hs : bool) (cs1 cs2 : list wcall) (e : wending) (req : option shape_type) (fuel : nat),
+  Forall call_ok cs1 -> Forall call_ok cs2 ->
+  let ss0 := accepted_acc [] cs1 in
+  let ss := accepted_acc [] (cs1 ++ CFinalize :: cs2) in
+  ss0 <> [] -> Forall shape_ok ss -> FileFits ss -> RecordsFit ss -> (req = None \/ req = Some (file_type ss)) ->
+  (length ss0 <= fuel)%nat ->
+  let tc := explode (trace (w_shp (shp_after hs (cs1 ++ [CFinalize])))) in
+  forall p, is_prefix p (explode (trace (w_shp (snd (run_history hs world0 (cs1 ++ CFinalize :: cs2) e))))) ->
+  is_prefix tc p ->
+  let buf := fst (bp_ops p ([], 0%nat)) in
+  exists j tail ended st' s',
+    run (st <-- r_new ;; it_pull fuel req st) (src_of buf)
+    = (Ok (map (fun s => Ok (on_read s)) (firstn j ss) ++ tail, ended, st'), s') /\
+    (tail = [] \/ tail = [Err EIoEof]) /\ (length ss0 <= j)%nat.
+Proof. exact committed_readable. Qed.
+Print Assumptions C11_committed_readable.
+
 (** Non-vacuity: a crash 11 bytes into the second record (before any finalize: the placeholder header still declares an empty file). *)
 Example C11_example :
   let p := SPoint XY (mkpt 1 2 0 0) in
@@ -83,3 +132,24 @@ Proof.
   - set (l := explode _). rewrite <- (firstn_skipn 140 l) at 2. apply is_prefix_app.
   - split; vm_compute; reflexivity.
 Qed.
+
+(** Non-vacuity of the last clause: one point committed by a finalize, a second
+    point written, and a crash 30 bytes into the header rewrite of the second
+    finalize (inside the length field, whose first two bytes are rewritten):
+    the reader still yields the committed point. *)
+Example C11_example_committed :
+  let p := SPoint XY (mkpt 1 2 0 0) in
+  let cs1 := [CWrite p] in let cs2 := [CWrite p] in
+  let tc := explode (trace (w_shp (shp_after false (cs1 ++ [CFinalize])))) in
+  let tr := explode (trace (w_shp (snd (run_history false world0 (cs1 ++ CFinalize :: cs2) EDrop)))) in
+  let cut := firstn (length tc + 28 + 1 + 26) tr in
+  is_prefix cut tr /\ is_prefix tc cut /\
+  fst (run (st <-- r_new ;; x <-- it_pull 5 None st ;; Ret (fst (fst x))) (src_of (fst (bp_ops cut ([], 0%nat)))))
+  = Ok [Ok p].
+Proof.
+  cbv zeta. split; [|split].
+  - set (l := explode (trace (w_shp (snd (run_history _ _ _ _))))). rewrite <- (firstn_skipn (length (explode (trace (w_shp (shp_after false ([CWrite (SPoint XY (mkpt 1 2 0 0))] ++ [CFinalize]))))) + 28 + 1 + 26) l) at 2. apply is_prefix_app.
+  - vm_compute. repeat constructor.
+  - vm_compute. reflexivity.
+Qed.
+
